@@ -1,5 +1,6 @@
 """C18 — HTTP/1.1 server parsing does not depend on segmentation: real HTTPChannel (via server.Site on
 StringTransport) vs the Lean model of Http/Channel.lean + oracle (split run == one-piece run on the real code)."""
+import hashlib
 import re
 
 from corr import _httpchan as H
@@ -7,11 +8,18 @@ from corr import _httpchan as H
 HEADLINE = "TwistedProps.C18.http_seg_invariant"
 RULE = ("request streams generated from the HTTP/1.1 grammar (request line, header variants, obs-fold, Expect, Connection, "
         "Content-Length / chunked bodies with extensions and trailers, 1-4 pipelined requests, IE blank lines, tails), a malformed "
-        "stream (bad request lines / header lines / chunk framing, byte mutations, truncation) and streams at the limits named in "
+        "stream (bad request lines / header lines / chunk framing, byte mutations, truncation), streams at the limits named in "
         "the code (16384-byte lines and header blocks, 500 headers, 4300-digit lengths, 1024-byte chunk lines, 64 KiB trailers, "
-        "16 KiB eager read); each delivered in random pieces against a scripted resource (answers at once / in pieces / later / "
-        "never); the oracle re-runs the real code on the one-piece stream and, for streams up to 96 bytes, on every two-piece "
-        "split and byte by byte; distinct = (features of the stream, #requests handed over, closed, raised, #pieces bucket)")
+        "16 KiB eager read) and pipelines in which one request carries a body larger than those limits (16-66 KiB, Content-Length, "
+        "one large chunk or a run of large chunks); each delivered in random pieces, in pieces that end at the CRITICAL offsets "
+        "(just before / inside / just after every line ending, one byte into the next line, where a line reaches 1024 / 16384-16386 "
+        "bytes without a delimiter, the last bytes), in one of three structured segmentations (a delivery per line, a cut after "
+        "every CR, a cut before every CR), optionally with empty deliveries in between, against a scripted resource (answers at "
+        "once / in pieces / later / never); every limit-sized stream is, in the quick tier too, delivered cut at all its critical "
+        "offsets; the oracle re-runs the real code on the one-piece stream and, for streams up to 96 bytes, on every two-piece "
+        "split and byte by byte, for longer streams on the two-piece split at the critical offsets (up to 64 for limit-sized and "
+        "big-body streams, a spread of 16 otherwise) and on the three structured segmentations; distinct = (features of the stream "
+        "incl. the segmentation class, #requests handed over, closed, raised, #pieces bucket)")
 ASSUMES = [
     "the application is deterministic: what it writes and when it finishes depends only on the request and its index on the connection; "
     "requests it postpones are finished after the whole stream has been delivered",
@@ -33,7 +41,10 @@ MANIFEST = {
             "(the chunked decoder's dataReceived commutes with splitting its input for every decoder state and every byte string, "
             "including the _MalformedChunkedDataError cases: same exception after the same callbacks); no hypothesis left); "
             "model tied to web/http.py + protocols/basic.py by differential runs of the real channel on grammar-generated, mutated and "
-            "limit-sized streams under random segmentations; oracle compares every split run with the one-piece run on the real code.",
+            "limit-sized streams under random segmentations and under segmentations that end deliveries at / inside / after every line "
+            "ending and at the limit offsets (every limit-sized stream in both tiers), big-body pipelines, empty deliveries; oracle "
+            "compares every split run (the case's, all two-piece splits of short streams, the critical two-piece splits and three "
+            "structured segmentations of long ones) with the one-piece run on the real code.",
     "note": "trusts Lean kernel, the hand-written model of HTTPChannel/LineReceiver/decoders (differentially tied), StringTransport as transport",
     "technique": "Lean 4 proof (loop-commutes-with-append invariant) + differential tie + all-splits oracle",
     "design_ref": "DESIGN.md §7 C18",
@@ -42,8 +53,11 @@ MANIFEST = {
 _W = lambda s: s.encode().hex()
 
 
-def _case(stream, cuts, script, feats=()):
-    return {"stream": H.hx(stream), "cuts": sorted(set(cuts)), "script": script, "feats": sorted(feats)}
+def _case(stream, cuts, script, feats=(), empty=()):
+    c = {"stream": H.hx(stream), "cuts": sorted(set(cuts)), "script": script, "feats": sorted(feats)}
+    if empty:
+        c["empty"] = sorted(set(empty))      # indices of the pieces preceded by an empty delivery
+    return c
 
 
 DEFAULT_SCRIPT = [[0, 0, [_W("ok")]]]
@@ -61,11 +75,142 @@ def corpus():
     cs.append(_case(b"\r\nGET / HTTP/1.1\r\n\r\n\r\n\r\nGET / HTTP/1.1\r\n\r\n", [1, 3], DEFAULT_SCRIPT))
     cs.append(_case(b"GET / HTTP/1.1\r\nConnection: close\r\n\r\nGET /2 HTTP/1.1\r\n\r\n", [20], MIX_SCRIPT))
     cs.append(_case(b"POST / HTTP/1.1\r\nTransfer-Encoding: chunked\r\n\r\n3\r\nabcXY\r\n", [49, 50], DEFAULT_SCRIPT))
+    s = b"POST /a HTTP/1.1\r\nTransfer-Encoding: chunked\r\n\r\n3;x\r\nabc\r\n0\r\nT: v\r\n\r\nGET /b HTTP/1.1\r\n\r\n"
+    cs.append(_case(s, [s.index(b"3;x\r") + 4, s.index(b"T: v\r") + 5, s.index(b"T: v\r\n\r") + 7], DEFAULT_SCRIPT, ["cut-after-cr"], [0, 1, 3]))
     for name, st in H.boundary_streams():
         n = len(st)
         cuts = [n // 3, n // 2, n - 3] if n > 10 else []
-        cs.append(_case(st, cuts, [[2, 0, [_W("slow")]], [0, 0, [_W("ok")]]] if name.startswith("eager") else DEFAULT_SCRIPT, [name]))
+        cs.append(_case(st, cuts, _bscript(name), [name]))
+    # limit-sized streams cut where the code holds a partial element (mutation audit: m02 m03 m04 m07 m11 m13 survived or
+    # were killed by luck only, because the cuts above never fall next to a line ending)
+    bs = dict(H.boundary_streams())
+    h = len(b"POST / HTTP/1.1\r\nTransfer-Encoding: chunked\r\n\r\n")
+    cs.append(_case(bs["chunkline1023"], [h + 1024], DEFAULT_SCRIPT, ["chunkline1023", "cut-after-cr"]))
+    t = h + len(b"1\r\na\r\n0\r\n")
+    for n in (65535, 65536):
+        cs.append(_case(bs["trailer%d" % n], [t + n + 1], DEFAULT_SCRIPT, ["trailer%d" % n, "cut-in-final-crlf"]))
+        cs.append(_case(bs["trailer%d" % n], [t + n - 1], DEFAULT_SCRIPT, ["trailer%d" % n, "cut-after-cr"]))
+    for n in (16384, 16385, 16386):
+        st = bs["longline%d" % n]
+        cs.append(_case(st, [len(st) - 2], DEFAULT_SCRIPT, ["longline%d" % n, "cut-lines"]))
+        cs.append(_case(st, [len(st) - 3], DEFAULT_SCRIPT, ["longline%d" % n, "cut-after-cr"]))
+    for name in ("eager40000", "bigbody"):
+        st = bs[name]
+        for cut in (st.find(b"\r\n") + 2, st.find(b"\r\n") + 3, st.find(b"Content-Length") - 2, st.find(b"Content-Length") + 3):
+            cs.append(_case(st, [cut], _bscript(name), [name, "cut-in-head"]))
     return cs
+
+
+def _bscript(name):
+    return [[2, 0, [_W("slow")]], [0, 0, [_W("ok")]]] if name.startswith("eager") else DEFAULT_SCRIPT
+
+
+def boundary_cases(rng, tier):
+    """every limit-sized stream delivered in pieces that end at its critical offsets (all of them at once: model-compared;
+    the oracle adds the two-piece split at each of them and the three structured segmentations)"""
+    for name, st in H.boundary_streams():
+        cap = 48 if tier == "quick" else 160
+        yield _case(st, crit_offsets(st, cap), _bscript(name), [name, "crit"])
+        if tier == "thorough":
+            for sname, cuts in structured_cuts(st):
+                yield _case(st, cuts[:600], _script(rng), [name, sname])
+            offs = crit_offsets(st)
+            for _ in range(4):
+                yield _case(st, sorted(set(rng.choice(offs) for _ in range(rng.choice([1, 1, 2])))), _script(rng), [name, "crit1"])
+
+
+_EOL = re.compile(rb"[\r\n]")
+_BOUNDARY = {name for name, _ in H.boundary_streams()}
+
+
+def _pick(offs, cap):
+    """at most `cap` of the sorted offsets: the first quarter, the last half, the rest evenly spaced from the middle"""
+    if cap is None or len(offs) <= cap:
+        return offs
+    a, b = cap // 4, cap // 2
+    mid = offs[a:len(offs) - b]
+    k = cap - a - b
+    return offs[:a] + [mid[(i * len(mid)) // k] for i in range(k)] + offs[len(offs) - b:]
+
+
+def crit_offsets(stream, cap=None):
+    """Delivery boundaries at which the code holds a partial element: just before / inside / just after every line
+    ending (before the CR, between CR and LF, after the LF, one byte into the next line), the offsets at which a line
+    that started after a CRLF reaches the limits named in the code (1024, 16384..16386 bytes without a delimiter),
+    and the last bytes of the stream."""
+    n = len(stream)
+    offs = set()
+    starts = [0]
+    for m in _EOL.finditer(stream):
+        p = m.start()
+        offs.update((p, p + 1))
+        if stream[p] == 10:
+            offs.add(p + 2)
+            if p and stream[p - 1] == 13 and len(starts) < 64:
+                starts.append(p + 1)
+    for q in starts:
+        offs.update(q + d for d in (1023, 1024, 1025, 1026, 16384, 16385, 16386, 16387))
+    offs.update((n - 3, n - 2, n - 1))
+    return _pick(sorted(o for o in offs if 0 < o < n), cap)
+
+
+def structured_cuts(stream):
+    """three whole-stream segmentations: a delivery per line (cut after every CRLF), a cut after every CR, a cut before every CR"""
+    crlf = [m.start() for m in re.finditer(rb"\r\n", stream)]
+    cr = [m.start() for m in re.finditer(rb"\r", stream)]
+    n = len(stream)
+    out = []
+    for name, cuts in (("lines", [p + 2 for p in crlf]), ("after-cr", [p + 1 for p in cr]), ("before-cr", cr)):
+        cuts = [x for x in cuts if 0 < x < n]
+        if cuts:
+            out.append((name, cuts))
+    return out
+
+
+_BIG_SIZES = [16383, 16384, 16385, 16386, 20000, 32767, 32768, 32769, 33000, 50000, 66000]
+_BIG_FILL = [b"z", b"abc\r\n", b"0\r\n\r\nGET /x HTTP/1.1\r\n\r\n", b"\r\n\r", b"5\r\nhello\r\n"]
+
+
+def gen_big(rng):
+    """A pipelined stream in which one request has a body larger than the limits named in the code (16 KiB line /
+    header block / eager read, 32 KiB, 64 KiB): Content-Length, one large chunk, or a run of large chunks; ordinary
+    grammar requests before and after it.  → (stream, feats, offsets inside the heads)"""
+    feats = {"big"}
+    pre = b""
+    if rng.random() < 0.6:
+        pre, f = H.gen_request(rng, 0.0)
+        feats |= f
+    n = rng.choice(_BIG_SIZES)
+    fill = rng.choice(_BIG_FILL)
+    body = (fill * (n // len(fill) + 1))[:n]
+    hs = b"".join(k + b": " + v + b"\r\n" for k, v in (rng.choice(H.PLAIN_HEADERS) for _ in range(rng.choice([0, 1, 2, 4]))))
+    if rng.random() < 0.2:
+        hs += b"Expect: 100-continue\r\n"
+        feats.add("expect")
+    kind = rng.choice(["cl", "cl", "chunk1", "chunks"])
+    feats.add("big-" + kind)
+    line = rng.choice([b"POST", b"PUT"]) + b" /big HTTP/1.1\r\n"
+    if kind == "cl":
+        head = line + hs + b"Content-Length: %d\r\n\r\n" % n
+        wire = body
+    else:
+        head = line + hs + b"Transfer-Encoding: chunked\r\n\r\n"
+        wire = b""
+        i = 0
+        while i < n:
+            k = n if kind == "chunk1" else min(n - i, rng.choice([17, 255, 256, 1024, 4096, 16384, 16385]))
+            wire += b"%x" % k + rng.choice([b"", b"", b";e=1"]) + b"\r\n" + body[i:i + k] + b"\r\n"
+            i += k
+        wire += b"0\r\n" + rng.choice([b"", b"", b"T: v\r\n"]) + b"\r\n"
+    post = b""
+    for _ in range(rng.choice([0, 1, 1, 2])):
+        r, f = H.gen_request(rng, 0.0)
+        post += r
+        feats |= f
+    stream = pre + head + wire + post
+    a, b = len(pre), len(pre) + len(head)
+    heads = [o for o in crit_offsets(stream) if o <= b + 2 or o >= b + len(wire) - 8]
+    return stream, feats, heads
 
 
 def _script(rng):
@@ -77,10 +222,19 @@ def _script(rng):
     return out
 
 
-def _cuts(rng, n):
+def _cuts(rng, n, stream=None):
     if n <= 1:
         return []
     r = rng.random()
+    if stream is not None and rng.random() < 0.3:
+        # deliveries that end at / inside / just after line endings
+        offs = crit_offsets(stream)
+        if offs:
+            if r < 0.2:
+                return offs if len(offs) <= 200 else sorted(rng.sample(offs, 200))
+            if r < 0.4:
+                return list(rng.choice(structured_cuts(stream) or [("", [rng.choice(offs)])])[1])[:400]
+            return sorted(set(rng.choice(offs) for _ in range(rng.choice([1, 1, 2, 3]))))
     if r < 0.15:
         return list(range(1, n)) if n <= 400 else sorted(rng.sample(range(1, n), 200))
     if r < 0.3:
@@ -91,9 +245,27 @@ def _cuts(rng, n):
 
 def generate(rng, tier):
     n = 700 if tier == "quick" else 5000
+    yield from boundary_cases(rng, tier)
+    for i in range(16 if tier == "quick" else 120):
+        stream, feats, heads = gen_big(rng)
+        r = rng.random()
+        if r < 0.6 and heads:
+            cuts = sorted(set(rng.choice(heads) for _ in range(rng.choice([1, 1, 2, 3]))))
+        elif r < 0.8:
+            cuts = _pick(heads, 40)
+        else:
+            cuts = _cuts(rng, len(stream))
+        yield _case(stream, cuts, _script(rng), feats)
     for i in range(n):
         stream, feats = H.gen_stream(rng, malformed=0.15 if i % 3 else 0.5)
-        yield _case(stream, _cuts(rng, len(stream)), _script(rng), feats)
+        cuts = _cuts(rng, len(stream), stream)
+        empty = ()
+        if rng.random() < 0.06:
+            # a split may contain empty deliveries (the theorems quantify over every list of pieces)
+            k = len(H.chunks_of(stream, cuts))
+            empty = [rng.randrange(k) for _ in range(rng.choice([1, 2, 5]))] if k else ()
+            feats = set(feats) | {"empty-delivery"}
+        yield _case(stream, cuts, _script(rng), feats, empty)
     if tier == "thorough":
         for name, st in H.boundary_streams():
             for _ in range(6):
@@ -104,10 +276,12 @@ def generate(rng, tier):
 
 
 def _ops(c, cuts=None):
-    return H.ops_for(H.unhx(c["stream"]), c["cuts"] if cuts is None else cuts)
+    return H.ops_for(H.unhx(c["stream"]), c["cuts"] if cuts is None else cuts, c.get("empty", ()) if cuts is None else ())
 
 
 def model_line(c):
+    if c.get("oracle_only"):
+        return None          # search() candidates over the limit-sized streams: judged on the real code only
     return "run " + H.enc_script(c["script"]) + " " + H.enc_ops(_ops(c))
 
 
@@ -126,18 +300,42 @@ def _brief(s):
     return s if len(s) < 400 else s[:200] + "…" + s[-150:]
 
 
+_TRIALS = {}     # (stream, script) → verdict of the split trials, which do not depend on the case's own cuts
+
+
 def oracle(c, out):
     got = _PAUSED.sub("", out)
     whole = _obs(c, [])
     if got != whole:
         return {"key": "segmentation", "detail": f"cuts {c['cuts'][:12]}: {_brief(got)} BUT in one piece: {_brief(whole)}"}
-    n = len(H.unhx(c["stream"]))
+    if c.get("own"):
+        return None          # search() candidates: one segmentation each, the search itself enumerates the splits
+    key = hashlib.sha1((c["stream"] + "|" + H.enc_script(c["script"]) + "|" + str(_limit(c))).encode()).digest()
+    if key not in _TRIALS:
+        if len(_TRIALS) > 20000:
+            _TRIALS.clear()
+        _TRIALS[key] = _trials(c, whole)
+    return _TRIALS[key]
+
+
+def _limit(c):
+    return bool(_BOUNDARY.intersection(c.get("feats", ()))) or "big" in c.get("feats", ())
+
+
+def _trials(c, whole):
+    stream = H.unhx(c["stream"])
+    n = len(stream)
     if n <= 96:
-        for cut in list(range(1, n)) + [None]:
-            cuts = list(range(1, n)) if cut is None else [cut]
-            o = _obs(c, cuts)
-            if o != whole:
-                return {"key": "segmentation", "detail": f"cuts {cuts[:12]}: {_brief(o)} BUT in one piece: {_brief(whole)}"}
+        trials = [[cut] for cut in range(1, n)] + [list(range(1, n))]
+    else:
+        # longer streams: the two-piece split at the critical offsets (all of them for the limit-sized streams, a spread of
+        # them otherwise) and the three structured segmentations
+        cap = (24 if n > 50000 else 64) if _limit(c) else 16
+        trials = [[o] for o in crit_offsets(stream, cap)] + [cuts for _, cuts in structured_cuts(stream)]
+    for cuts in trials:
+        o = _obs(c, cuts)
+        if o != whole:
+            return {"key": "segmentation", "detail": f"cuts {cuts[:12]}: {_brief(o)} BUT in one piece: {_brief(whole)}"}
     return None
 
 
@@ -153,6 +351,17 @@ def tag(c, out):
 def shrink(c):
     s = H.unhx(c["stream"])
     cuts = c["cuts"]
+    if len(s) > 4096:        # long streams: try to drop big blocks first, every candidate is expensive
+        for size in (len(s) // 2, len(s) // 4):
+            for i in range(0, len(s), size):
+                t = s[:i] + s[i + size:]
+                yield dict(c, stream=H.hx(t), cuts=sorted(set(min(len(t), x if x <= i else max(i, x - size)) for x in cuts)))
+    if c.get("empty"):
+        yield {k: v for k, v in c.items() if k != "empty"}
+    for size in (len(cuts) // 2, len(cuts) // 4):
+        if size > 1:
+            for i in range(0, len(cuts), size):
+                yield dict(c, cuts=cuts[:i] + cuts[i + size:])
     for i in range(len(cuts)):
         yield dict(c, cuts=cuts[:i] + cuts[i + 1:])
     if len(c["script"]) > 1:
@@ -168,13 +377,17 @@ def shrink(c):
 
 
 def search(rng, tier, disagreeing):
-    """every two-piece split (and byte-by-byte) of the disagreeing streams and of fresh short streams"""
-    seen = 0
-    for c in disagreeing[:5]:
-        n = len(H.unhx(c["stream"]))
-        for cut in range(1, min(n, 400)):
-            yield dict(c, cuts=[cut])
-        seen += 1
+    """every two-piece split (and byte-by-byte) of the disagreeing streams — of long ones: the two-piece split at every
+    critical offset, judged on the real code only — and of fresh short streams"""
+    for c in sorted(disagreeing, key=lambda c: len(c["stream"]))[:5]:
+        stream = H.unhx(c["stream"])
+        n = len(stream)
+        extra = {"own": 1, "oracle_only": 1} if n > 4096 else {"own": 1}
+        base = {k: v for k, v in c.items() if k != "empty"}
+        for cut in (range(1, n) if n <= 400 else crit_offsets(stream, 128)):
+            yield dict(base, cuts=[cut], **extra)
+        for _, cuts in structured_cuts(stream):
+            yield dict(base, cuts=cuts[:600], **extra)
     for _ in range(200 if tier == "quick" else 2000):
         stream, feats = H.gen_stream(rng, malformed=0.3)
         if len(stream) <= 200:
